@@ -398,6 +398,7 @@ def _prof(name: str) -> Prof:
         PROFS.update(
             {
                 'arg': Prof(symbol=1, metavars=3, mv_cfgs=((0, 0, 0, 0), (1, 0, 0, 0)), app=True, notations=(P.bot, P.neg)),
+                'arg_subst': Prof(symbol=1, metavars=2, subst=True, app=False, mu=False, exists=False, implies=False),
                 'arg_tiny': Prof(symbol=0, svar=False, metavars=1, app=False, mu=False, exists=False, implies=False),
                 'arg_small': Prof(symbol=1, svar=False, metavars=2, mv_cfgs=((0, 0, 0, 0), (1, 0, 0, 0)), app=False, mu=False, exists=False, implies=False, notations=(P.bot,)),
             }
@@ -408,7 +409,11 @@ def _prof(name: str) -> Prof:
 def h_lemma(ctx: Any, name: str, size: int, prof: str = 'arg', twin: bool = False) -> None:
     info = INV[name]
     b = BIND[name]
-    vals = {l: gens.gen_upto(ctx, size, _prof(prof)) for l in info['letters']}
+    if prof == 'arg_subst':
+        # every argument is a pending substitution (element or set variable) on a metavariable
+        vals = {l: gens.gen(ctx, 3, _prof(prof)) for l in info['letters']}
+    else:
+        vals = {l: gens.gen_upto(ctx, size, _prof(prof)) for l in info['letters']}
     # premise conclusions as written, or under two layers of a transparent notation
     w = 2 * ctx.choose(2, 'wrap') if info['schema'][0] else 0
     wraps = tuple(w for _ in info['schema'][0])
@@ -534,6 +539,10 @@ def levels(tier: str) -> list[dict]:
             size, prof = 1, 'arg_small'
         L.append(dict(label=f'{name}/args<={size}/{prof}', module=M, fn='h_lemma', kwargs=dict(name=name, size=size, prof=prof), budget_s=150 if q else 900, required=True, twin=first))
         first = False
+    for name in sorted(BIND):
+        nl = len(INV[name]['letters'])
+        if nl == 1 or (not q and nl == 2):
+            L.append(dict(label=f'{name}/arguments-are-pending-substitutions', module=M, fn='h_lemma', kwargs=dict(name=name, size=3, prof='arg_subst'), budget_s=150 if q else 900, required=True, twin=False))
     quick_nested = ('con3_i', 'dni_l_i', 'ant_commutativity', 'imp_to_and', 'a1d', 'con1')
     for name in sorted(BIND):
         if q and name not in quick_nested:
